@@ -547,6 +547,10 @@ def c06_env_block(ctx):
             lp = [l for l in loops_ if any(g in l for g in gate)]
             none_e = variant_edges(osf, To, lambda t_: M.contains(t_, envf), 0, [0, 1], "std::option::Option<")
             okn = bool(lp) and not (set(cp) & osf.reachable(0, removed_blocks=[min(lp[0])], removed_edges=set(none_e)))
+        import c06 as _c06
+        _c06.env_names_checked_for_equals(ctx, prog, osf, To, cp, "R06.10", "env-name-with-equals-rejected-before-CreateProcess",
+                                          "the environment block spells every entry NAME=VALUE and Windows splits at the first '=' past position 0: a configured "
+                                          "name containing '=' is read as a different variable, so it must be refused before CreateProcess")
         ctx.ob("R06.9", "env-NUL-rejected-before-CreateProcess", okn, osf.loc(cp[0] if cp else 0),
                "windows: every name and value of the configured environment must be scanned for NUL (any(c == 0) over encode_wide) with an Err return, in a loop that "
                "CreateProcess cannot be reached around (components scanned: %s)" % sorted(covered))
